@@ -598,4 +598,257 @@ Section Single.
       split; [exact Hwf|split; [reflexivity|split; [reflexivity|split; [reflexivity|split; [exact Hf|]]]]].
       intros fd. destruct b; cbn [explains]; [exists F; split; [reflexivity | exact Hfrq] | exact Hfrq].
   Qed.
+
+  Lemma expand_keys f s : In s (expand f) -> exists c, In (s, c) f.
+  Proof.
+    induction f as [|[v c] f IH]; cbn [expand flat_map fst snd]; [intros []|].
+    rewrite in_app_iff. intros [H|H].
+    - apply repeat_spec in H. subst. exists c. now left.
+    - destruct (IH H) as [c' Hc]. exists c'. now right.
+  Qed.
+
+  Lemma fill_inv st past e fd (b rg : bool) :
+    INV st past -> nth_error (a_execs st) r0 = Some e ->
+    oracle_ok cfg (conc st) (Freqs r0 b rg fd) = true ->
+    exists st1 F, fill (conc st) r0 (mkres (smp_of st) (a_frq st) r0 e) fd = Some (conc st1) /\
+                  INV st1 past /\ a_frq st1 = Some F /\ a_execs st1 = a_execs st.
+  Proof.
+    intros [Hwf [Hitems [Hns Hnn]]] He Hor.
+    pose proof Hwf as [Hlen Hgf Hfrq Hnosamp Hact].
+    unfold fill. rewrite mkres_freqs, mkres_samples.
+    destruct (a_frq st) as [F|] eqn:Hf.
+    - exists st, F. split; [reflexivity|]. split; [|split; [exact Hf | reflexivity]].
+      split; [exact Hwf|]. split; [exact Hitems|]. split; [exact Hns|]. intros _ H. rewrite Hf in H. discriminate.
+    - rewrite g0_conc by exact Hlen. unfold smp_of at 1. destruct (a_smp st) eqn:Hs.
+      + (* frequencies computed from the existing samples *)
+        cbn [orb]. rewrite (mat_idem st e [] Hs He), (result_r0 st e He), mkres_samples.
+        unfold smp_of. rewrite Hs, Hf.
+        destruct (Hact (or_introl eq_refl)) as [e' [He' Hshots]]. rewrite He in He'. inversion He'; subst e'.
+        rewrite (dec_bin_shots _ _ _ Hshots).
+        set (st1 := mka (a_execs st) true (a_sh st) (Some (calc_freq (a_sh st))) (a_gfl st) (a_fin st)).
+        exists st1, (calc_freq (a_sh st)). split.
+        * cbn [conc m_gates m_results m_final]. rewrite Hs. rewrite set_freqs_mkres.
+          unfold smp_of. rewrite Hs, Hf.
+          rewrite (mk_results_update _ _ (Some (map (to_bin k) (a_sh st))) (Some (calc_freq (a_sh st))) _ 0 r0 e)
+            by (reflexivity || assumption).
+          reflexivity.
+        * split; [|split; reflexivity]. split; [|split; [|split; intros; discriminate]].
+          -- constructor; cbn [st1 a_gfl a_sh a_frq a_smp a_execs].
+             ++ exact Hlen.
+             ++ exact Hgf.
+             ++ split; [apply nodup_calc_freq | intros v; apply lookup_calc_freq].
+             ++ discriminate.
+             ++ intros _. exists e. split; assumption.
+          -- rewrite Forall_forall in *. intros p Hin. apply (item_ok_mono st st1); auto.
+      + (* frequencies drawn by sample_frequencies and registered on every gate *)
+        cbn [orb]. unfold smp_of. rewrite Hs.
+        unfold oracle_ok in Hor. rewrite (result_r0 st e He), mkres_freqs, Hf in Hor.
+        rewrite g0_conc in Hor by exact Hlen. rewrite Hs, mkres_samples in Hor.
+        unfold smp_of in Hor. rewrite Hs in Hor. cbn [orb] in Hor.
+        rewrite mkres_probs, mkres_nshots in Hor.
+        apply andb_true_iff in Hor. destruct Hor as [Hor Hsup].
+        apply andb_true_iff in Hor. destruct Hor as [Hnd Htot].
+        apply nodupb_NoDup in Hnd. apply Nat.eqb_eq in Htot.
+        set (gfl1 := map (fun reg => Some (reg_freq k (reg_cols Q reg) fd)) regs).
+        set (st1 := mka (a_execs st) false (expand fd) (Some fd) gfl1 (a_fin st)).
+        exists st1, fd. split.
+        * cbn [conc m_gates m_results m_final]. rewrite Hs.
+          rewrite (freq_gates _ _ (expand fd)) by exact Hlen.
+          rewrite set_freqs_mkres. unfold smp_of. rewrite Hs, Hf. cbn [st1 a_smp].
+          rewrite (mk_results_update _ _ None (Some fd) _ 0 r0 e) by (reflexivity || assumption).
+          reflexivity.
+        * split; [|split; reflexivity].
+          specialize (Hnn eq_refl eq_refl).
+          split; [|split; [|split; [|intros _ H; discriminate]]].
+          -- constructor; cbn [st1 a_gfl a_sh a_frq a_smp a_execs].
+             ++ unfold gfl1. now rewrite map_length.
+             ++ apply reg_freq_ok. auto.
+             ++ split; [exact Hnd | intros v; symmetry; now apply cnt_expand].
+             ++ intros _. unfold gfl1. clear. induction regs; cbn [map]; constructor; auto.
+             ++ intros _. exists e. split; [exact He|]. split.
+                ** now rewrite length_expand.
+                ** apply Forall_forall. intros s Hin. apply expand_keys in Hin. destruct Hin as [c Hc].
+                   rewrite forallb_forall in Hsup. specialize (Hsup _ Hc). cbn [fst snd] in Hsup.
+                   apply andb_true_iff in Hsup. destruct Hsup as [Hsup _].
+                   apply in_support_spec in Hsup. now rewrite <- probs_born.
+          -- rewrite Forall_forall in *. intros p Hin. apply (item_ok_mono st st1); auto.
+          -- intros _. rewrite Forall_forall in *. intros p Hin. specialize (Hnn p Hin).
+             unfold no_samples_item. destruct (fst p); cbn [needs_shots] in Hnn; try discriminate; exact I.
+  Qed.
+
+  Lemma step_freqs_inv st past (b rg : bool) fd :
+    INV st past -> r0 < length (a_execs st) ->
+    oracle_ok cfg (conc st) (Freqs r0 b rg fd) = true ->
+    exists st' x, step_freqs cfg (conc st) r0 b rg fd = (conc st', x) /\
+                  INV st' (past ++ [(Freqs r0 b rg fd, x)]) /\ a_execs st' = a_execs st.
+  Proof.
+    intros HINV Hr Hor.
+    destruct (nth_error (a_execs st) r0) as [e|] eqn:He; [|apply nth_error_None in He; lia].
+    destruct (fill_inv st past e fd b rg HINV He Hor) as [st1 [F [Hfill [[Hwf1 [Hit1 [Hns1 Hnn1]]] [Hf1 Hex1]]]]].
+    assert (He1 : nth_error (a_execs st1) r0 = Some e) by (rewrite Hex1; exact He).
+    destruct (freqs_output st1 e b rg F Hwf1 Hf1 He1) as [st' [x [Ht [Hwf' [Hsh [Hex' [Hsm [Hfr Hexpl]]]]]]]].
+    exists st', x. split.
+    - rewrite step_freqs_unfold, (result_r0 st e He), Hfill. exact Ht.
+    - split; [|congruence]. split; [exact Hwf'|]. split; [|split].
+      + apply Forall_app_one.
+        * rewrite Forall_forall in *. intros p Hin. apply (item_ok_mono st1 st'); auto.
+          intros r e0. now rewrite Hex'.
+        * unfold item_ok. cbn [fst snd target]. rewrite Hex', He1, Nat.eqb_refl, Hsh. apply Hexpl.
+      + rewrite Hsm. intros H. apply Forall_app_one; [auto | exact I].
+      + rewrite Hsm, Hfr, Hf1. intros _ H. discriminate.
+  Qed.
+
+  (* ---------- one step *)
+  Lemma step_inv st past o :
+    INV st past -> op_wf cfg (length (a_execs st)) o = true ->
+    oracle_ok cfg (conc st) o = true -> reader_ok o = true ->
+    exists st' x, step cfg (conc st) o = (conc st', x) /\ INV st' (past ++ [(o, x)]) /\
+      length (a_execs st') = (match o with Exec _ _ => S (length (a_execs st)) | _ => length (a_execs st) end) /\
+      (forall r e, nth_error (a_execs st) r = Some e -> nth_error (a_execs st') r = Some e).
+  Proof.
+    intros HINV Hop Hor Hrd. destruct o as [w ns|r b rg d|r b rg fd|r qs|].
+    - (* Exec *)
+      destruct HINV as [Hwf [Hitems [Hns Hnn]]]. pose proof Hwf as [Hlen Hgf Hfrq Hnosamp Hact].
+      set (st' := mka (a_execs st ++ [(w, ns)]) (a_smp st) (a_sh st) (a_frq st) (a_gfl st) (Some (length (a_execs st)))).
+      exists st', ODone. split; [|split; [|split]].
+      + unfold st', conc. cbn [step m_gates m_results m_final a_execs a_smp a_sh a_frq a_gfl a_fin].
+        rewrite mk_results_length, mk_results_app. cbn [Nat.add].
+        assert (E : mkres (smp_of st) (a_frq st) (length (a_execs st)) (w, ns) = mkr w ns (calc_probs n Q w) None None).
+        { unfold mkres. cbn [fst snd]. destruct (length (a_execs st) =? r0) eqn:E; [|reflexivity].
+          apply Nat.eqb_eq in E.
+          destruct (a_smp st) eqn:Hs.
+          - destruct (Hact (or_introl eq_refl)) as [e [He _]].
+            assert (r0 < length (a_execs st)) by (apply nth_error_Some; congruence). lia.
+          - destruct (a_frq st) eqn:Hf.
+            + destruct (Hact (or_intror eq_refl)) as [e [He _]].
+              assert (r0 < length (a_execs st)) by (apply nth_error_Some; congruence). lia.
+            + unfold smp_of. rewrite Hs. reflexivity. }
+        change (smp_of {| a_execs := a_execs st ++ [(w, ns)]; a_smp := a_smp st; a_sh := a_sh st;
+                          a_frq := a_frq st; a_gfl := a_gfl st; a_fin := Some (length (a_execs st)) |})
+          with (smp_of st).
+        rewrite E. reflexivity.
+      + split; [|split; [|split]].
+        * constructor; cbn [st' a_gfl a_sh a_frq a_smp a_execs]; try assumption.
+          intros H. destruct (Hact H) as [e [He Hs]]. exists e. split; [|exact Hs].
+          now apply nth_error_app_some.
+        * apply Forall_app_one; [|exact I].
+          rewrite Forall_forall in *. intros p Hin. apply (item_ok_mono st st'); auto.
+          intros r e He. now apply nth_error_app_some.
+        * intros H. apply Forall_app_one; [auto | exact I].
+        * intros H1 H2. apply Forall_app_one; [auto | reflexivity].
+      + cbn [st' a_execs]. rewrite app_length. cbn [length]. lia.
+      + intros r e He. now apply nth_error_app_some.
+    - (* Samples *)
+      cbn [reader_ok] in Hrd. apply Nat.eqb_eq in Hrd. subst r.
+      cbn [op_wf] in Hop. apply Nat.ltb_lt in Hop.
+      destruct (step_samples_inv st past b rg d HINV Hop Hor) as [st' [x [H1 [H2 H3]]]].
+      exists st', x. cbn [step]. split; [exact H1|]. split; [exact H2|]. rewrite H3. split; auto.
+    - (* Freqs *)
+      cbn [reader_ok] in Hrd. apply Nat.eqb_eq in Hrd. subst r.
+      cbn [op_wf] in Hop. apply Nat.ltb_lt in Hop.
+      destruct (step_freqs_inv st past b rg fd HINV Hop Hor) as [st' [x [H1 [H2 H3]]]].
+      exists st', x. cbn [step]. split; [exact H1|]. split; [exact H2|]. rewrite H3. split; auto.
+    - (* Probs *)
+      cbn [op_wf] in Hop. apply andb_true_iff in Hop. destruct Hop as [Hop Hq].
+      apply andb_true_iff in Hop. destruct Hop as [Hr Hnd]. apply Nat.ltb_lt in Hr.
+      apply nodupb_NoDup in Hnd.
+      destruct (nth_error (a_execs st) r) as [e|] eqn:He; [|apply nth_error_None in He; lia].
+      exists st, (OProbs (calc_probs n qs (fst e))). split; [|split; [|split; auto]].
+      + cbn [step conc m_results]. rewrite mk_results_nth, He. reflexivity.
+      + destruct HINV as [Hwf [Hitems [Hns Hnn]]]. split; [exact Hwf|]. split; [|split].
+        * apply Forall_app_one; [exact Hitems|].
+          unfold item_ok. cbn [fst snd target]. rewrite He. cbn [explains].
+          apply probs_sv_correct; [exact Hnd|]. intros q Hin. rewrite forallb_forall in Hq.
+          apply Nat.ltb_lt. now apply Hq.
+        * intros H. apply Forall_app_one; [auto | exact I].
+        * intros H1 H2. apply Forall_app_one; [auto | reflexivity].
+    - (* Final *)
+      exists st, (OFinal (a_fin st)). split; [reflexivity|]. split; [|split; auto].
+      destruct HINV as [Hwf [Hitems [Hns Hnn]]]. split; [exact Hwf|]. split; [|split].
+      + apply Forall_app_one; [exact Hitems | exact I].
+      + intros H. apply Forall_app_one; [auto | exact I].
+      + intros H1 H2. apply Forall_app_one; [auto | reflexivity].
+  Qed.
+
+  (* ---------- whole histories *)
+  Lemma run_inv h : forall st past,
+    INV st past -> hist_wf cfg (length (a_execs st)) h = true ->
+    oracles_ok cfg (conc st) h = true -> single_reader r0 h = true ->
+    exists st' xs, run cfg (conc st) h = (xs, conc st') /\ INV st' (past ++ combine h xs) /\
+                   length xs = length h.
+  Proof.
+    induction h as [|o h IH]; intros st past HINV Hwf Hor Hsr.
+    - exists st, []. cbn [run combine]. rewrite app_nil_r. auto.
+    - cbn [hist_wf] in Hwf. apply andb_true_iff in Hwf. destruct Hwf as [Hop Hwf].
+      cbn [oracles_ok] in Hor. apply andb_true_iff in Hor. destruct Hor as [Ho Hor].
+      cbn [single_reader forallb] in Hsr. apply andb_true_iff in Hsr. destruct Hsr as [Hrd Hsr].
+      assert (Hrd' : reader_ok o = true) by (destruct o; exact Hrd).
+      destruct (step_inv st past o HINV Hop Ho Hrd') as [st1 [x [Hstep [HINV1 [Hlen1 _]]]]].
+      rewrite Hstep in Hor. cbn [fst] in Hor.
+      assert (Hwf1 : hist_wf cfg (length (a_execs st1)) h = true).
+      { rewrite Hlen1. destruct o; exact Hwf. }
+      destruct (IH st1 (past ++ [(o, x)]) HINV1 Hwf1 Hor Hsr) as [st' [xs [Hrun [HINV' Hl]]]].
+      exists st', (x :: xs). cbn [run]. rewrite Hstep, Hrun. split; [reflexivity|].
+      cbn [combine length]. rewrite <- app_assoc in HINV'. cbn [app] in HINV'. auto.
+  Qed.
+
+  Definition st0 : ast := mka [] false [] None (map (fun _ => None) regs) None.
+
+  Lemma build_init : forall rs : list (list nat),
+    build rs false [] (map (fun _ => None) rs) = map (fun _ => mkg None None) rs.
+  Proof. induction rs as [|reg rs IH]; cbn [build map]; [reflexivity | now rewrite IH]. Qed.
+
+  Lemma conc_st0 : conc st0 = init cfg.
+  Proof. unfold conc, st0, init. cbn [a_smp a_sh a_gfl a_execs a_fin a_frq mk_results_from]. now rewrite build_init. Qed.
+
+  Lemma INV_st0 : INV st0 [].
+  Proof.
+    split; [|split; [constructor | split; intros; constructor]].
+    constructor; cbn [st0 a_gfl a_sh a_frq a_smp a_execs].
+    - now rewrite map_length.
+    - apply gf_ok_none; [now rewrite map_length|]. clear. induction regs; cbn [map]; constructor; auto.
+    - exact I.
+    - intros _. clear. induction regs; cbn [map]; constructor; auto.
+    - intros [H|H]; discriminate.
+  Qed.
+
+  Lemma nth_error_combine {A B} (l : list A) : forall (l' : list B) i a b,
+    nth_error l i = Some a -> nth_error l' i = Some b -> In (a, b) (combine l l').
+  Proof.
+    induction l as [|x l IH]; intros [|y l'] [|i] a b Ha Hb; cbn [nth_error] in *; try discriminate.
+    - inversion Ha; inversion Hb; subst. now left.
+    - right. eapply IH; eauto.
+  Qed.
+
+  Theorem single_reader_standalone h :
+    hist_wf cfg 0 h = true -> oracles_ok cfg (init cfg) h = true -> single_reader r0 h = true ->
+    standalone cfg h.
+  Proof.
+    intros Hwf Hor Hsr. unfold standalone. rewrite <- conc_st0 in *.
+    destruct (run_inv h st0 [] INV_st0 Hwf Hor Hsr) as [st' [xs [Hrun [[Hwf' [Hitems [Hns Hnn]]] Hl]]]].
+    rewrite Hrun. cbn [app] in *. intros r R HR.
+    cbn [conc m_results] in HR. rewrite mk_results_nth in HR. cbn [Nat.add] in HR.
+    destruct (nth_error (a_execs st') r) as [e|] eqn:He; [|discriminate].
+    cbn [option_map] in HR. inversion HR; subst R. clear HR.
+    exists (if r =? r0 then a_sh st' else []). split.
+    - intros [o [Hin [Ht Hn]]].
+      assert (r = r0) as ->.
+      { unfold single_reader in Hsr. rewrite forallb_forall in Hsr. specialize (Hsr o Hin).
+        destruct o; cbn [target needs_shots] in *; try discriminate; inversion Ht; subst;
+          now apply Nat.eqb_eq. }
+      rewrite Nat.eqb_refl.
+      assert (Hactive : a_smp st' = true \/ isSome (a_frq st') = true).
+      { destruct (a_smp st') eqn:Hs; [now left | right].
+        destruct (a_frq st') eqn:Hf; [reflexivity | exfalso].
+        specialize (Hnn eq_refl eq_refl). rewrite Forall_forall in Hnn.
+        apply (In_nth_error) in Hin. destruct Hin as [i Hi].
+        assert (i < length xs) by (rewrite Hl; apply nth_error_Some; congruence).
+        destruct (nth_error xs i) as [x|] eqn:Hx; [|apply nth_error_None in Hx; lia].
+        specialize (Hnn (o, x) (nth_error_combine _ _ _ _ _ Hi Hx)). cbn [fst] in Hnn. congruence. }
+      destruct Hwf' as [_ _ _ _ Hact]. destruct (Hact Hactive) as [e' [He' Hs]].
+      rewrite He in He'. inversion He'; subst e'. exact Hs.
+    - intros i o x Hi Hx Ht. rewrite Forall_forall in Hitems.
+      specialize (Hitems (o, x) (nth_error_combine _ _ _ _ _ Hi Hx)).
+      unfold item_ok in Hitems. cbn [fst snd] in Hitems. rewrite Ht, He in Hitems. exact Hitems.
+  Qed.
 End Single.
